@@ -18,6 +18,7 @@ func TestSmoke(t *testing.T) {
 	res := base
 	res.Mode = "resumed"
 	res.Sess = Sess{Authd: true, Keyed: true}
+	res.Est, res.EstEnc = "Honest", "REQUIRED"
 	groups := []*Group{
 		{Cfg: base, Devs: []string{}, Allowed: []Final{abort, ok("C", true, true)}},
 		{Cfg: srv, Devs: []string{}, Allowed: []Final{abort, ok("C", true, true)}},
@@ -26,7 +27,7 @@ func TestSmoke(t *testing.T) {
 		{Cfg: res, Devs: []string{}, Allowed: []Final{abort, {Ran: "NONE", KeyE: true, PostAuth: "none", Outcome: Outcome{Done: true, Ok: true, Auth: true, Enc: true, Method: "ANY", Resumed: true}}}},
 	}
 	for i, g := range groups {
-		o := Run(g)
+		o := Run(g, "")
 		d, mach := Check(g, o, nil)
 		t.Logf("%d %s %v -> %s skip=%q diff=%v", i, g.Cfg.Role, g.Devs, o.Short(), o.Skip, d)
 		if mach != "" {
